@@ -114,8 +114,14 @@ def mk_translate(name, axis, lo, hi, keep, rotation=None, extra_args=(), params=
                     po_.setdefault(v[3], []).append(v[:3])
             ctx.claim('same-number-of-hydrogens-per-atom', {k: len(v) for k, v in pb_.items()} == {k: len(v) for k, v in po_.items()},
                       detail='%r vs %r' % ({k: len(v) for k, v in pb_.items()}, {k: len(v) for k, v in po_.items()}))
+            heavy_nb = {M.akey(a): len([x for x in a.bonded_atoms if x.element != 'H']) for a in base.conformations['1A'].atoms}
             for parent in pb_:
                 if len(po_.get(parent, [])) != len(pb_[parent]):
+                    continue
+                if rotation is not None and heavy_nb.get(parent, 0) < 2:
+                    # a terminal atom: where its hydrogens point may follow the frame (Vector.orthogonal) -- the statement claims
+                    # pKa values and determinants under rotation, not hydrogen positions; positions are claimed where the
+                    # geometry determines them (two or more heavy neighbours)
                     continue
                 moved = []
                 for p in pb_[parent]:
@@ -259,6 +265,14 @@ def mk_translate_text(name, pos):
     return body
 
 
+def mk_rotations(name, claim_tag=None):
+    """the structure in each of the 24 grid rotations (no translation), compared with the pose of the file"""
+    def body(ctx):
+        r = ctx.choice('rotation', ROT24)
+        return mk_translate(name, (0,), 0.0, 0.0, False, rotation=r)(ctx)
+    return body
+
+
 def obligations(tier):
     code_pipe = ['propka/run.py:single', 'propka/input.py:read_molecule_file', 'propka/bonds.py:BondMaker.find_bonds_for_atoms_using_boxes',
                  'propka/conformation_container.py:ConformationContainer.extract_groups', 'propka/conformation_container.py:ConformationContainer.calculate_pka',
@@ -309,6 +323,13 @@ def obligations(tier):
                               code=code_pipe + ['propka/input.py:get_atom_lines_from_pdb'],
                               bounds='%s translated so that atom %s of residue %s lies at (t, 0, 0), t = k/1000 in [-0.002, 0.002] (exactly on the origin for k = 0)' % (name, at[12:16].strip(), at[17:20] + at[22:26].strip()),
                               claim_doc='as O1-translation (an atom at 0.000 0.000 0.000 is an atom)', max_paths=200))
+    # all 24 grid rotations of a structure with interacting side chains: complete, and with an arginine that lacks one
+    # guanidinium nitrogen (finding F11: the hydrogens of the remaining terminal nitrogen then get a frame-dependent rotamer)
+    for name in (['pair_GLU_ARG_TYR', 'pair_GLU_ARG_TYR~-NH2@57'] if tier == 'quick' else ['pair_GLU_ARG_TYR', 'pair_ASP_ARG', 'pair_GLU_ARG_TYR~-NH2@57', 'pair_GLU_ARG_TYR~-NH1@57', 'pair_GLU_ARG_TYR~-NE@57', 'pair_ASP_ARG~-NH1@87']):
+        obs.append(Obligation('O4-rotations[%s]' % name, mk_rotations(name), code=code_pipe + ['propka/protonate.py:Protonate.trigonal', 'propka/vector_algebra.py:Vector.orthogonal'],
+                              bounds='micro-structure %s in each of the 24 axis-permuting proper rotations' % name,
+                              claim_doc='as O1-translation, hydrogens compared after the same rotation', max_paths=200, split_input=('rotation', 8),
+                              outside='known finding F11 for incomplete arginines (reported as KNOWN-FINDING)' if '~' in name else ''))
     # a protein-ligand-ion micro-complex: the heavy-atom clauses (bonds incl. protein-ligand, protein / ligand / ion groups, desolvation, buried)
     for ax, axn in (axes[:1] if tier == 'quick' else axes[:3]):
         for params, ptag in (((M.BURIED, ',buried'),) if tier == 'quick' else ((None, ''), (M.BURIED, ',buried'))):
